@@ -6,7 +6,7 @@ META = {
                    "agreement SELECT = INSERT = row decoding (VI2), once-only traversal of the closure (W1 at TaskType.traverse), one "
                    "directory-name helper on both sides (NAME1), archive is read-only on the project (AR2, VI1), restore loads and copies "
                    "every row of the archive index (RS4). No implicit commits on the project connection (VI7).",
-    "rules": ["AR1", "AR3", "SQL2", "VI2", "W1(traverse)", "NAME1", "AR2", "VI1", "RS4", "VI7"],
+    "rules": ["AR1", "AR3", "SQL2", "VI2", "W1(traverse)", "NAME1", "AR2", "VI1", "RS4", "VI7", "AR5"],
     "assumptions": ["byte-identical trees are delegated to tar and shutil.copytree"],
     "trusted": ["ast parser", "SQL subset reader"],
 }
@@ -14,6 +14,7 @@ META = {
 
 def run(A, rep, tier):
     AR.rule_ar1(A, rep)
+    AR.rule_ar5(A, rep)
     Q = V.rule_sql2(A, rep)
     V.rule_vi2(A, rep, Q)
     V.rule_sql3(A, rep, Q)
